@@ -54,18 +54,25 @@ ERR = {'InfeasibleRegion': 'EInfeasible', 'FloatingPointError': 'EZeroDiv', 'Zer
        'LinAlgError': 'EDim', 'UndefinedChemicalAlias': 'EKey', 'UndefinedPhase': 'EUndefPhase', 'TypeError': 'EType',
        'KeyError': 'EKey'}
 
+PKGS = {'sup': IDS + ['X_'], 'perm': ['E_', 'X_', 'Water', 'C_', 'A_', 'B_', 'D_'], 'sub': ['Water', 'A_', 'B_', 'C_', 'E_']}
+
+def pkg_pos(pkg):
+    names = PKGS[pkg]
+    return [names.index(n) if n in names else None for n in IDS]
+
 _env = {}
 def env():
     if not _env:
         import thermosteam as tmo
-        chems = tmo.Chemicals([
-            tmo.Chemical(n, search_db=False, MW=mw, Hf=0., Cn=64., phase='l', default=True, rho=rho,
-                         **({'CAS': '7732-18-5'} if n == 'Water' else {}))
-            for n, mw, rho in zip(IDS, MWS, RHOS)])
-        thermo = tmo.Thermo(chems)
+        ch = {n: tmo.Chemical(n, search_db=False, MW=mw, Hf=0., Cn=64., phase='l', default=True, rho=rho,
+                              **({'CAS': '7732-18-5'} if n == 'Water' else {}))
+              for n, mw, rho in zip(IDS + ['X_'], MWS + [2.], RHOS + [64.])}
+        thermo = tmo.Thermo(tmo.Chemicals([ch[n] for n in IDS]))
         tmo.settings.set_thermo(thermo)
         _env['tmo'] = tmo
         _env['thermo'] = thermo
+        # other property packages over the same chemical objects (superset, reordered superset, subset)
+        _env['pkgs'] = {k: tmo.Thermo(tmo.Chemicals([ch[n] for n in names])) for k, names in PKGS.items()}
         from thermosteam.base.sparse import SparseVector
         try:
             r = SparseVector([1., 0., 2.]) / SparseVector([0., 1., 2.])
@@ -126,8 +133,17 @@ def gen_mix_split(rng):
     if rng.random() < 0.08:   # malformed: split outside [0, 1]
         split = [fl(rng.choice(SPLITS + [F(-1, 2), F(3, 2)])) for _ in range(N)]
     alias = rng.choice([None, None, None, 'top', 'bottom'])
-    return {'fn': 'mix_split', 'ins': ins, 'split': split, 'alias': alias,
-            'top0': maybe_empty(rng), 'bot0': maybe_empty(rng)}
+    c = {'fn': 'mix_split', 'ins': ins, 'split': split, 'alias': alias,
+         'top0': maybe_empty(rng), 'bot0': maybe_empty(rng), 'pkg': None}
+    if rng.random() < 0.4:
+        # bottom outlet on another property package, usually reused (already holding flows)
+        c['pkg'] = pkg = rng.choice(['sup', 'perm', 'perm', 'sub'])
+        c['alias'] = None if alias == 'bottom' else alias
+        m = len(PKGS[pkg])
+        c['bot0'] = [fl(rng.choice(FLOWS[2:])) if rng.random() < 0.5 else 0. for _ in range(m)] if rng.random() < 0.75 else [0.] * m
+        if rng.random() < 0.35:      # nothing reaches the bottom
+            c['split'] = 1.0 if rng.random() < 0.5 else [1.0 if any(v[i] for v in ins) else fl(rng.choice(SPLITS)) for i in range(N)]
+    return c
 
 def moisture_exact(R, P, w, mc, by_mass):
     """remaining permeate moisture flow in exact arithmetic (repaired source)"""
@@ -191,10 +207,51 @@ def gen_mix_moisture(rng):
         rem = moisture_exact([top, [0] * N], [bot, [0] * N], w, mc, ident is not None)
         if abs(rem) < F(1, 10 ** 6):
             continue
-        return {'fn': 'mix_moisture', 'ins': ins, 'split': split, 'ID': ident, 'mc': fl(mc), 'strict': strict}
+        c = {'fn': 'mix_moisture', 'ins': ins, 'split': split, 'ID': ident, 'mc': fl(mc), 'strict': strict,
+             'pkg': rng.choice([None, 'sup']), 'top0': maybe_empty(rng, 0.4)}
+        m = len(PKGS[c['pkg']]) if c['pkg'] else N
+        c['bot0'] = [fl(rng.choice(FLOWS[2:])) if rng.random() < 0.5 else 0. for _ in range(m)] if rng.random() < 0.6 else [0.] * m
+        return c
     raise RuntimeError('gen_mix_moisture')
 
+ONE_PLUS, ONE_MINUS, X_LO, X_HI = F(1.0 + 1e-9), F(1.0 - 1e-9), F(1e-16), F(1 - 1e-16)
+
+def rr_obj_exact(phi, z, K, za, zb):
+    s_ = sum(-zi * (k - 1) / (1 + phi * (k - 1)) for zi, k in zip(z, K))
+    return s_ - (za / phi if za > 0 else 0) + (zb / (1 - phi) if zb > 0 else 0)
+
+def rr_stage(z, K, za, zb):
+    """which statement of phase_fraction / solve_phase_fraction_Rashford_Rice returns, in exact arithmetic;
+    None when a comparison is too close to be decided the same way in floating point"""
+    z = [F(x) for x in z]; K = [F(x) for x in K]; za = F(za); zb = F(zb)
+    if not (za or zb or len(z) > 2):
+        return 'closed'
+    if max(K) <= ONE_PLUS and not za: return 'exit0'
+    if min(K) >= ONE_MINUS and not zb: return 'exit1'
+    y0 = rr_obj_exact(X_LO if za else F(0), z, K, za, zb)
+    y1 = rr_obj_exact(X_HI if zb else F(1), z, K, za, zb)
+    if min(abs(y0), abs(y1)) < F(1, 10 ** 9) or abs(y0 - y1) <= F(1, 10 ** 9) * max(abs(y0), abs(y1)):
+        return None
+    if y0 > y1 > 0 or y0 < y1 < 0: return 'sign1'
+    if y1 > y0 > 0 or y1 < y0 < 0: return 'sign0'
+    return 'numeric'
+
+def partition_stage(c):
+    involved = c['ids'] + c['topc'] + c['botc']
+    Ft = sum(F(c['feed'][i]) for i in involved)
+    if Ft == 0:
+        return 'empty'
+    return rr_stage([F(c['feed'][i]) / Ft for i in c['ids']], c['K'],
+                    sum(F(c['feed'][i]) for i in c['topc']) / Ft, sum(F(c['feed'][i]) for i in c['botc']) / Ft)
+
 def gen_partition(rng, real=False, fn='partition'):
+    for _ in range(200):
+        c = gen_partition1(rng, real, fn)
+        if not real or partition_stage(c) is not None:
+            return c
+    raise RuntimeError('gen_partition')
+
+def gen_partition1(rng, real=False, fn='partition'):
     nid = rng.choice([1, 2, 2, 3, 3, 4]) if not real else rng.choice([2, 2, 3, 4])
     perm = rng.sample(range(N), N)
     ids = perm[:nid]
@@ -212,6 +269,16 @@ def gen_partition(rng, real=False, fn='partition'):
         if rng.random() < 0.85 and feed[i] == 0:
             feed[i] = fl(rng.choice(FLOWS[2:]))
     K = [fl(F(2) ** rng.randint(-10, 10)) for _ in ids]
+    if real and rng.random() < 0.45:
+        # every K on the same side of 1 (the early exits of the Rachford-Rice wrapper), mostly with forced chemicals
+        side = rng.choice([1, -1])
+        K = [fl(F(2) ** (side * rng.randint(0 if rng.random() < 0.3 else 1, 8))) for _ in ids]
+        if rng.random() < 0.8 and not (topc or botc):
+            if rng.random() < 0.5: botc = rest[:1]
+            else: topc = rest[:1]
+        for i in topc + botc:
+            if rng.random() < 0.85 and feed[i] == 0:
+                feed[i] = fl(rng.choice(FLOWS[2:]))
     malformed = None
     m = rng.random()
     if not real:
@@ -349,6 +416,13 @@ def gen_balance(rng):
             continue
         cin = [flows(rng) for _ in range(rng.choice([0, 1, 1, 2]))]
         cout = [flows(rng) for _ in range(rng.choice([1, 1, 2, 2, 0] if rng.random() < 0.3 else [1, 2]))]
+        if d != 0 and cout:
+            # exact solution by Cramer's rule; ill-conditioned systems (huge factors) are left out: the solver's
+            # own rounding would exceed the comparison tolerance
+            b = [sum(F(s_[i]) for s_ in cout) - sum(F(s_[i]) for s_ in cin) for i in ids]
+            xs = [det([[b[r_] if c_ == j else A[r_][c_] for c_ in range(k)] for r_ in range(k)]) / d for j in range(k)]
+            if max(abs(x) for x in xs) > 4096:
+                continue
         c = {'fn': 'balance', 'ids': ids, 'vin': vin, 'cin': cin, 'cout': cout,
              'is_exact': rng.random() < 0.7, 'balance': 'flow', 'singular': d == 0}
         r = rng.random()
@@ -368,7 +442,20 @@ def gen_binary(rng):
     z2 = 1 - z1 if rng.random() < 0.7 else rng.choice([F(1, 2), F(1, 4), F(0), F(3), F(1)])
     if rng.random() < 0.05:
         z1, z2 = F(0), F(0)
-    return {'fn': 'binary', 'z': [fl(z1), fl(z2)], 'K': [fl(rng.choice(KBIN)), fl(rng.choice(KBIN))]}
+    if rng.random() < 0.4:
+        return {'fn': 'binary', 'z': [fl(z1), fl(z2)], 'K': [fl(rng.choice(KBIN)), fl(rng.choice(KBIN))], 'za': 0., 'zb': 0.}
+    for _ in range(200):       # the general entry: 1-3 chemicals, forced fractions, K on one or both sides of 1
+        n = rng.choice([1, 2, 3, 3])
+        za = rng.choice([F(0), F(0), F(1, 8), F(1, 4)]); zb = rng.choice([F(0), F(0), F(1, 8), F(1, 16)])
+        w = [rng.choice([F(1), F(2), F(3), F(1, 2)]) for _ in range(n)]
+        z = [x * (1 - za - zb) / sum(w) for x in w]
+        side = rng.choice([0, 0, 1, -1])
+        K = [F(2) ** (rng.randint(-8, 8) if side == 0 else side * rng.randint(0, 8)) for _ in range(n)]
+        c = {'fn': 'binary', 'z': [fl(x) for x in z], 'K': [fl(k) for k in K], 'za': fl(za), 'zb': fl(zb)}
+        st = rr_stage(c['z'], c['K'], c['za'], c['zb'])
+        if st is not None and not (st == 'closed' and n != 2 and min(K) < ONE_MINUS and max(K) > ONE_PLUS and rng.random() < 0.7):
+            return c
+    raise RuntimeError('gen_binary')
 
 def gen_rr(rng):
     """phase_fraction_objective_function, the residual handed to the root finder"""
@@ -402,9 +489,9 @@ def gen_cases(rng, tier):
     return cases
 
 # ------------------------------------------------------------------ implementation side
-def mkstream(v, phase='l'):
+def mkstream(v, phase='l', pkg=None):
     tmo = env()['tmo']
-    s = tmo.Stream(None, phase=phase)
+    s = tmo.Stream(None, phase=phase, thermo=env()['pkgs'][pkg] if pkg else None)
     s.mol[:] = np.array(v, float)
     return s
 
@@ -452,7 +539,8 @@ def read_moist(s):
         liq = row(s, 'l')
         tot = arr(s)
         return [liq, [float(F(a) - F(b)) for a, b in zip(tot, liq)] if len(s.phases) > 2 else row(s, 'g')]
-    return [arr(s), [0.] * N]
+    a = arr(s)
+    return [a, [0.] * len(a)]
 
 class PhiRecorder:
     def __init__(self, phi):
@@ -470,6 +558,33 @@ class PhiRecorder:
         return self
     def __exit__(self, *a):
         self.S.compute_phase_fraction = self.real
+
+class RRRecorder:
+    """records, for every call of solve_phase_fraction_Rashford_Rice, whether the numeric root finder
+    (flx.find_bracket / flx.IQ_interpolation) was reached and what the call returned"""
+    def __enter__(self):
+        import types
+        bpf = env()['tmo'].equilibrium.binary_phase_fraction
+        self.bpf, self.real_rr, self.real_flx = bpf, bpf.solve_phase_fraction_Rashford_Rice, bpf.flx
+        self.calls = []
+        state = {'numeric': False}
+        def find_bracket(*a, **k):
+            state['numeric'] = True
+            return self.real_flx.find_bracket(*a, **k)
+        def IQ(*a, **k):
+            state['numeric'] = True
+            return self.real_flx.IQ_interpolation(*a, **k)
+        def rr(zs, Ks, guess, za=0, zb=0):
+            state['numeric'] = False
+            r = self.real_rr(zs, Ks, guess, za, zb)
+            self.calls.append({'numeric': state['numeric'], 'ret': float(r)})
+            return r
+        bpf.flx = types.SimpleNamespace(find_bracket=find_bracket, IQ_interpolation=IQ)
+        bpf.solve_phase_fraction_Rashford_Rice = rr
+        return self
+    def __exit__(self, *a):
+        self.bpf.flx = self.real_flx
+        self.bpf.solve_phase_fraction_Rashford_Rice = self.real_rr
 
 class EqStub:
     """replace the equilibrium call of every stream by a table-driven split"""
@@ -529,7 +644,7 @@ def run_impl(case):
     if fn == 'mix_split':
         ins = [mkstream(v) for v in case['ins']]
         top = ins[0] if case['alias'] == 'top' else mkstream(case['top0'])
-        bot = ins[-1] if case['alias'] == 'bottom' else mkstream(case['bot0'])
+        bot = ins[-1] if case['alias'] == 'bottom' else mkstream(case['bot0'], pkg=case.get('pkg'))
         split = case['split'] if isinstance(case['split'], float) else np.array(case['split'], float)
         c = Catch().run(lambda: S.mix_and_split(ins, top, bot, split))
         others = [arr(s) for s in ins if s is not top and s is not bot]
@@ -541,17 +656,17 @@ def run_impl(case):
         return {'R': read_moist(R), 'P': read_moist(P), 'err': c.err}
     if fn == 'mix_moisture':
         ins = [mkstream(v) for v in case['ins']]
-        R = mkstream([0.] * N); P = mkstream([0.] * N)
+        R = mkstream(case.get('top0', [0.] * N)); P = mkstream(case.get('bot0', [0.] * N), pkg=case.get('pkg'))
         c = Catch().run(lambda: S.mix_and_split_with_moisture_content(ins, R, P, np.array(case['split'], float),
                                                                       case['mc'], case['ID'], case['strict']))
         return {'R': read_moist(R), 'P': read_moist(P), 'err': c.err}
     if fn in ('partition', 'phase_fraction'):
         feed = mkstream(case['feed'])
         top = mkstream(case.get('top0', [0.] * N)); bot = mkstream(case.get('bot0', [0.] * N))
-        with PhiRecorder(case['phi']) as rec:
+        with PhiRecorder(case['phi']) as rec, RRRecorder() as rr:
             c = Catch().run(lambda: call_partition(case, feed, top, bot))
         return {'top': arr(top), 'bot': arr(bot), 'feed_after': arr(feed), 'err': c.err, 'warns': c.warns,
-                'phi': None if c.value is None else float(c.value), 'calls': rec.calls}
+                'phi': None if c.value is None else float(c.value), 'calls': rec.calls, 'rr': rr.calls}
     if fn == 'lle':
         feed = mkstream(case['feed'], case['feed_phase'])
         top = mkstream(case['top0']); bot = mkstream(case['bot0'])
@@ -596,8 +711,10 @@ def run_impl(case):
                 'const_kept': [arr(s) for s in cin + cout] == case['cin'] + case['cout']}
     if fn == 'binary':
         bpf = tmo.equilibrium.binary_phase_fraction
-        c = Catch().run(lambda: bpf.phase_fraction(np.array(case['z'], float), np.array(case['K'], float)))
-        return {'val': None if c.err else float(c.value), 'err': c.err}
+        with RRRecorder() as rr:
+            c = Catch().run(lambda: bpf.phase_fraction(np.array(case['z'], float), np.array(case['K'], float), None,
+                                                       case['za'], case['zb']))
+        return {'val': None if c.err else float(c.value), 'err': c.err, 'rr': rr.calls}
     if fn == 'rr':
         bpf = tmo.equilibrium.binary_phase_fraction
         z = np.array(case['z'], float); K = np.array(case['K'], float)
@@ -631,16 +748,30 @@ def moisture_args(case):
     w = 0 if case['ID'] is None else IDS.index(case['ID'])
     return f'{cnat(w)} {q(case["mc"])} {cbool(case["ID"] is not None)} {q(MWC)} {cstrict(case["strict"])}'
 
+def root_of(rr):
+    """the oracle value: what the numeric stage returned; a sentinel the model must never use otherwise"""
+    return q(rr[0]['ret']) if rr and rr[0]['numeric'] else '(-7)'
+
 def coq_case(case, out):
     fn = case['fn']
     if fn == 'clip':
         return (f'(clip_eqb (handle_infeasible {qlist(case["mol"])} {qlist(case["max"])} {cbool(case["strict"])}) '
                 f'{qlist(out["arr"])} {coerr(out["err"])} {cnat(out["warns"])} && {cbool(out["max_after"] == case["max"])})')
+    if fn == 'mix_split' and case.get('pkg'):
+        pos = clist(pkg_pos(case['pkg']), lambda x: copt(x, cnat))
+        return (f'(osplit_eqb (mix_and_split_other {cnat(N)} {clist(case["ins"], qlist)} {qlist(split_vec(case["split"]))} '
+                f'{cnat(len(PKGS[case["pkg"]]))} {pos}) {qlist(out["top"])} {qlist(out["bot"])} {coerr(out["err"])} '
+                f'&& {cbool(out["ins_kept"])})')
     if fn == 'mix_split':
         return (f'(pair_approxb (mix_and_split {cnat(N)} {clist(case["ins"], qlist)} {qlist(split_vec(case["split"]))}) '
                 f'{qlist(out["top"])} {qlist(out["bot"])} && {cbool(out["err"] is None and out["ins_kept"])})')
     if fn == 'moisture':
         return (f'(mres_eqb (adjust_moisture {qlist(MWS)} {cstrm(case["R"])} {cstrm(case["P"])} {moisture_args(case)}) '
+                f'{qlist(out["R"][0])} {qlist(out["R"][1])} {qlist(out["P"][0])} {qlist(out["P"][1])} {coerr(out["err"])})')
+    if fn == 'mix_moisture' and case.get('pkg'):
+        pos = clist(pkg_pos(case['pkg']), lambda x: copt(x, cnat))
+        return (f'(mres_eqb (mix_and_split_with_moisture_other {cnat(N)} {qlist(MWS)} {clist(case["ins"], qlist)} '
+                f'{qlist(case["split"])} {cnat(len(PKGS[case["pkg"]]))} {pos} {moisture_args(case)}) '
                 f'{qlist(out["R"][0])} {qlist(out["R"][1])} {qlist(out["P"][0])} {qlist(out["P"][1])} {coerr(out["err"])})')
     if fn == 'mix_moisture':
         return (f'(mres_eqb (mix_and_split_with_moisture {cnat(N)} {qlist(MWS)} {clist(case["ins"], qlist)} '
@@ -651,6 +782,12 @@ def coq_case(case, out):
         if len(calls) > 1:
             raise ValueError('solver called more than once')
         phi_oracle = calls[0][3] if calls else 0.
+        pf = f'(fun _ _ _ _ => {q(phi_oracle)})'
+        if case['phi'] is None:
+            # real solver: only the numeric root finder is an oracle, the in-repository wrapper is the model's
+            if len(out['rr']) > 1:
+                raise ValueError('Rachford-Rice wrapper called more than once')
+            pf = f'(pf_real (fun _ _ _ _ => {root_of(out["rr"])}))'
         obs_args = f'(Ok ({qlist(calls[0][0])}, {q(calls[0][1])}, {q(calls[0][2])}))' if calls else '(Err EZeroDiv)'
         phi_res = f'(Err {cerr(out["err"])})' if out['err'] else f'(Ok {q(out["phi"])})'
         common = (f'{qlist(case["feed"])} {idx(case["ids"])} {qlist(case["K"])} {idx(case["topc"])} {idx(case["botc"])} '
@@ -658,12 +795,12 @@ def coq_case(case, out):
         args = f'args_eqb (pf_args {qlist(case["feed"])} {idx(case["ids"])} {idx(case["topc"])} {idx(case["botc"])}) {obs_args}'
         feed_kept = cbool(out['feed_after'] == case['feed'])
         if fn == 'partition':
-            return (f'(pres_eqb (partition (fun _ _ _ _ => {q(phi_oracle)}) {qlist(case["feed"])} {qlist(case["top0"])} '
+            return (f'(pres_eqb (partition {pf} {qlist(case["feed"])} {qlist(case["top0"])} '
                     f'{qlist(case["bot0"])} {idx(case["ids"])} {qlist(case["K"])} {idx(case["topc"])} {idx(case["botc"])} '
                     f'{cbool(case["strict"])}) {qlist(out["top"])} {qlist(out["bot"])} {phi_res} {cnat(out["warns"])} '
                     f'&& {args} && {feed_kept})')
         untouched = cbool(out['top'] == [0.] * N and out['bot'] == [0.] * N)
-        return (f'(respf_eqb (phase_fraction (fun _ _ _ _ => {q(phi_oracle)}) {common}) {phi_res} {cnat(out["warns"])} '
+        return (f'(respf_eqb (phase_fraction {pf} {common}) {phi_res} {cnat(out["warns"])} '
                 f'&& {args} && {feed_kept} && {untouched})')
     if fn == 'lle':
         extra = 0 if not case['ms'] else len(set(case['ms']) - set('lL'))
@@ -694,8 +831,8 @@ def coq_case(case, out):
                 f'{cvopt(case["mixed"])}) {exp} && {cbool(out["a_after"] == case["a"])})')
     if fn == 'binary':
         exp = f'(Err {cerr(out["err"])})' if out['err'] else f'(Ok {q(out["val"])})'
-        z, K = case['z'], case['K']
-        return f'(resq_approxb (binary_phase_fraction_2 {q(z[0])} {q(z[1])} {q(K[0])} {q(K[1])}) {exp})'
+        return (f'(resq_approxb (binary_phase_fraction {root_of(out["rr"])} {qlist(case["z"])} {qlist(case["K"])} '
+                f'{q(case["za"])} {q(case["zb"])}) {exp})')
     if fn == 'rr':
         return (f'(qapproxb (rr_objective {q(case["phi"])} {qlist(case["z"])} {qlist(case["K"])} {q(case["za"])} '
                 f'{q(case["zb"])}) {q(out["val"])} && {cbool(out["err"] is None)})')
@@ -779,6 +916,8 @@ def classify(case, out):
         ks.append('is_exact:' + str(case['is_exact']))
     if fn == 'mix_split' and case['alias']:
         ks.append('alias:' + case['alias'])
+    if fn in ('mix_split', 'mix_moisture') and case.get('pkg'):
+        ks.append('bottom_package:' + case['pkg'] + (':reused' if any(case['bot0']) else ':fresh'))
     return ks
 
 # ------------------------------------------------------------------ direct oracle (search step)
@@ -808,7 +947,10 @@ def oracle(case):
         if not 0 <= phi <= 1:
             return f'binary phase_fraction: returned {phi}'
         if 0 < phi < 1 and sum(case['z']) > 0:
-            res = sum(z * (k - 1) / (1 + phi * (k - 1)) for z, k in zip(case['z'], case['K']))
+            res = (sum(z * (k - 1) / (1 + phi * (k - 1)) for z, k in zip(case['z'], case['K']))
+                   + case['za'] / phi - case['zb'] / (1 - phi))
+            if case['za'] or case['zb']:
+                res *= phi * (1 - phi)
             if abs(res) > 1e-9 * max(1., max(case['K'])):
                 return f'binary phase_fraction: Rachford-Rice residual {res} at the returned fraction {phi}'
         return None
@@ -836,6 +978,26 @@ def oracle(case):
         if (out['warns'] > 0) != viol:
             return 'clip: warning does not match infeasibility'
         return None
+    if fn == 'mix_split' and case.get('pkg'):
+        mixed = vadd(*case['ins'])
+        sp = split_vec(case['split'])
+        pos = pkg_pos(case['pkg'])
+        lost = [IDS[i] for i in range(N) if pos[i] is None and mixed[i] * (1 - sp[i]) != 0]
+        if err:
+            return None if (lost and err == 'UndefinedChemicalAlias') else f'mix_and_split: raised {err} (bottom on package {case["pkg"]})'
+        if lost:
+            return f'mix_and_split: {lost} sent to a bottom outlet whose package lacks it, without an error'
+        names = PKGS[case['pkg']]
+        for j, n in enumerate(names):           # per chemical of the bottom's package
+            i = IDS.index(n) if n in IDS else None
+            t = out['top'][i] if i is not None else 0.
+            f_ = mixed[i] if i is not None else 0.
+            if abs(t + out['bot'][j] - f_) > TOL * max(1., abs(f_)):
+                return (f'mix_and_split: {n}: inlets {f_} != outlets {t + out["bot"][j]} (bottom on package '
+                        f'{case["pkg"]}, held {case["bot0"]} before)')
+        if not close(out['top'], [s_ * m_ for s_, m_ in zip(sp, mixed)]):
+            return f'mix_and_split: top outlet {out["top"]} is not split * mixed'
+        return None
     if fn == 'mix_split':
         if err:
             return f'mix_and_split: raised {err}'
@@ -858,6 +1020,9 @@ def oracle(case):
         else:
             before = vadd(*case['ins'])
             allnn = True
+            if case.get('pkg'):          # bottom on the appended package: same leading indices, extras must be empty
+                before = before + [0.] * (len(out['P'][0]) - N)
+                out['R'] = [r + [0.] * (len(out['P'][0]) - N) for r in out['R']]
         after = vadd(out['R'][0], out['R'][1], out['P'][0], out['P'][1])
         w = 0 if case['ID'] is None else IDS.index(case['ID'])
         if err and err != 'InfeasibleRegion':
@@ -914,6 +1079,15 @@ def oracle(case):
         for i in case['botc']:
             if top[i] != 0: return 'partition: forced bottom chemical found in the top'
         phi = out['phi']
+        if case['phi'] is None:
+            # real solver: whenever both outlets hold equilibrium or forced material, every equilibrium chemical of
+            # the feed must be present on both sides (finite K: y_i/x_i = K_i c with 0 < c < inf)
+            T = sum(top[i] for i in involved); B = sum(bot[i] for i in involved)
+            if T > 0 and B > 0:
+                for i, k in zip(case['ids'], case['K']):
+                    if feed[i] > 0 and not (top[i] > 0 and bot[i] > 0):
+                        return (f'partition: both outlets are non-empty but {IDS[i]} (K = {k}) is only in one of them: '
+                                f'(y/x)/K is not a common finite factor (phi = {phi}, top {top}, bottom {bot})')
         if 0 < phi < 1 and out['warns'] == 0:
             ratios = [top[i] / (bot[i] * k) for i, k in zip(case['ids'], case['K']) if bot[i] > 0 and top[i] > 0]
             if ratios and not all(abs(r - ratios[0]) <= 1e-7 * abs(ratios[0]) for r in ratios):
@@ -1041,6 +1215,11 @@ CORPUS = [   # minimised inputs of the defects found while building this check (
      'P': [[8., 1., 0., 0., 0., 0.], Z6], 'ID': 'Water', 'mc': 0.5, 'strict': None},
     {'fn': 'partition', 'feed': [4., 2., 1., 0., 0., 0.], 'ids': [0, 1], 'K': [2., 0.5], 'topc': [], 'botc': [], 'strict': False,
      'phi': 1.0, 'malformed': None, 'top0': Z6, 'bot0': [1., 4., 0., 0., 0., 0.]},
+    # reused bottom outlet on another property package that receives nothing (seeded change C20-3)
+    {'fn': 'mix_split', 'ins': [[0., 10., 2., 0., 0., 0.]], 'split': 1.0, 'alias': None, 'top0': Z6,
+     'bot0': [0., 7.5, 1., 0., 0., 0., 3.], 'pkg': 'sup'},
+    {'fn': 'mix_split', 'ins': [[0., 10., 0., 0., 0., 0.]], 'split': [0.5, 1., 1., 0.25, 1., 1.], 'alias': None, 'top0': Z6,
+     'bot0': [0., 5., 0., 0., 1., 0., 0.], 'pkg': 'perm'},
     {'fn': 'balance', 'ids': [0, 1], 'vin': [[1., 1., 0., 0., 0., 0.], [0., 1., 2., 0., 0., 0.]], 'cin': [[4., 0., 0., 1., 0., 0.]],
      'cout': [[16., 8., 2., 0., 0., 0.], [0., 4., 0., 0., 1., 0.]], 'is_exact': False, 'balance': 'flow', 'singular': False},
 ]
